@@ -338,6 +338,8 @@ func execOp(op string) string {
 		})
 	case f[0] == "frame" && mode == "link":
 		return linkFrame(common.UnHex(f[1]))
+	case f[0] == "soak" && mode == "link":
+		return linkSoak(common.Atoi(f[1]))
 	case f[0] == "st" && mode == "stream":
 		return runStream(f[1])
 	case f[0] == "tok" && mode == "disp":
